@@ -214,7 +214,8 @@ def signature(sc, v, endpoint="victim"):
     """Structural signature of one broken rule: the rule, where it was observed, and the class of events."""
     rule, t, site, observed, x = v
     sig = {"sub": "lifecycle", "rule": rule, "mode": sc.get("mode", "WebRtc"), "phase": sc.get("phase"), "t": t,
-           "endpoint": endpoint, "flaps": int(sc.get("flaps", 0))}
+           "endpoint": endpoint, "flaps": int(sc.get("flaps", 0)),
+           "dc": bool(sc.get("dc", True)) and sc.get("mode", "WebRtc") == "WebRtc"}
     if t in ("pub", "sig"):
         sig["site"] = site
         sig["observed"] = observed
@@ -238,7 +239,9 @@ def plan(tier):
                                        phases=["offerMade", "checking", "dtlsHandshaking", "sctpConnecting",
                                                "channelsOpen"])),
                        ("flap", dict(max_events=1, wfc=0, liveness=True, phases=["channelsOpen"],
-                                     ev1=["SocketLoss", "Close", "PeerCloseNotify"], flaps=1, ice_fallback=False))],
+                                     ev1=["SocketLoss", "Close", "PeerCloseNotify"], flaps=1, ice_fallback=False)),
+                       ("nodc", dict(max_events=1, wfc=1, liveness=True, dc=False,
+                                     phases=["dtlsHandshaking", "dtlsConnected"]))],
             "emit": [("single", dict(max_events=1, wfc=0)),
                      ("media", dict(max_events=1, wfc=0, traffic=True, phases=["mediaFlowing"])),
                      ("pairs", dict(max_events=2, wfc=0, phases=["channelsOpen"],
@@ -250,6 +253,10 @@ def plan(tier):
                                       ev1=["Close", "IceStop", "PeerCloseNotify", "PeerSctpAbort", "SocketLoss"])),
                      ("flap", dict(max_events=1, wfc=0, phases=["channelsOpen"], ev1=["SocketLoss"], flaps=1,
                                    ice_fallback=False)),
+                     # WebRtc without a data channel (media only): no SCTP association whose end would end the
+                     # transport start-up / the loops for us
+                     ("nodc", dict(max_events=1, wfc=0, dc=False, phases=["dtlsHandshaking", "dtlsConnected"],
+                                   ev1=["Close", "Drop", "IceStop"])),
                      ("rtp", dict(max_events=1, wfc=0, mode="Rtp", dc=False, phases=["offerMade", "channelsOpen"],
                                   ev1=["Close", "Drop", "IceStop"])),
                      ("srtp", dict(max_events=1, wfc=0, mode="Srtp", dc=False, phases=["channelsOpen"],
@@ -266,6 +273,7 @@ def plan(tier):
                    ("answerer", dict(max_events=1, wfc=1, liveness=True, answerer=True,
                                      phases=["created", "offerMade", "checking", "dtlsHandshaking", "sctpConnecting",
                                              "channelsOpen"])),
+                   ("nodc", dict(max_events=1, wfc=1, liveness=True, dc=False, phases=["created", "offerMade", "gathering", "checking", "iceConnected", "dtlsHandshaking", "dtlsConnected"])),
                    ("pairs-safety", dict(max_events=2, wfc=0, liveness=False, ev2=["Close", "Drop"])),
                    ("rtp", dict(max_events=1, wfc=1, liveness=True, mode="Rtp", dc=False,
                                 ev1=["Close", "Drop", "IceStop"])),
@@ -284,6 +292,10 @@ def plan(tier):
                  ("blocked", dict(max_events=2, wfc=0, phases=["senderBlocked"],
                                   ev1=["Close", "IceStop", "PeerCloseNotify", "PeerSctpAbort", "PeerSctpShutdown",
                                        "SocketLoss"], ev2=["Close"])),
+                 ("nodc", dict(max_events=1, wfc=0, dc=False, phases=["created", "offerMade", "gathering", "checking", "iceConnected", "dtlsHandshaking", "dtlsConnected"])),
+                 ("nodcpairs", dict(max_events=2, wfc=0, dc=False, phases=["dtlsHandshaking", "dtlsConnected"],
+                                    ev2=["Close", "Drop"])),
+                 ("nodcmedia", dict(max_events=1, wfc=0, dc=False, traffic=True, phases=["mediaFlowing"])),
                  ("rtp", dict(max_events=1, wfc=0, mode="Rtp", dc=False, ev1=["Close", "Drop", "IceStop"])),
                  ("srtp", dict(max_events=1, wfc=0, mode="Srtp", dc=False, ev1=["Close", "Drop", "IceStop"]))],
         "attempts": 2, "shards": 14, "repeat": 1,
@@ -326,7 +338,7 @@ def run(tier):
     with ThreadPoolExecutor(max_workers=4) as ex:
         emitted_rows = list(ex.map(lambda lk: emit_scenarios(ck, lk[0], **lk[1]), pl["emit"]))
     for (label, kw), (rows, _res) in zip(pl["emit"], emitted_rows):
-        if label in ("pairs", "mediapairs", "sender"):
+        if label in ("pairs", "mediapairs", "sender", "nodcpairs"):
             rows = [r for r in rows if len(r["evs"]) == 2]
         if label in ("flap", "flapmedia"):
             rows = [r for r in rows if r.get("flaps", 0) >= 1]
@@ -337,7 +349,8 @@ def run(tier):
     # the same cells on a current-thread runtime (quick: two phases; thorough: every single-event cell)
     ct = [dict(x, rt="current") for x in scenarios
           if x["ev2"] == "none" and x["mode"] == "WebRtc" and x["ev1"] != "BlockedSender"
-          and (tier != "quick" or x["phase"] in ("dtlsHandshaking", "channelsOpen"))]
+          and (tier != "quick" or (x["phase"] in ("dtlsHandshaking", "channelsOpen")
+                                   and x["ev1"] in ("Close", "Drop", "PeerCloseNotify")))]
     for i, x in enumerate(ct):
         x["id"] = nid + i
     emitted["current_thread"] = len(ct)
@@ -403,7 +416,7 @@ def run(tier):
             todo = todo[k + 1:]
         return out
 
-    with ThreadPoolExecutor(max_workers=6) as ex:
+    with ThreadPoolExecutor(max_workers=8) as ex:
         results = list(ex.map(validate_chunk, chunks))
     for out in results:
         for res, label in out["tlc"]:
